@@ -25,6 +25,9 @@ type VerifWire struct {
 	closes  int
 	resets  int
 	expired bool // StopTimer reports false (lifetime timer already fired)
+
+	closeEntered chan<- struct{} // closed when a gated Close call has started
+	closeGate    <-chan struct{} // a gated Close call waits for this before it takes effect
 }
 
 // VerifNewWire makes a mock wire; err != nil makes it report that error from the start.
@@ -65,7 +68,23 @@ func (w *VerifWire) Error() error {
 	return w.err
 }
 
+// GateClose makes the next Close call slow (like pipe.Close waiting for in-flight
+// replies): it closes entered, then waits for gate before the wire counts as closed.
+func (w *VerifWire) GateClose(entered chan<- struct{}, gate <-chan struct{}) {
+	w.mu.Lock()
+	defer w.mu.Unlock()
+	w.closeEntered, w.closeGate = entered, gate
+}
+
 func (w *VerifWire) Close() {
+	w.mu.Lock()
+	entered, gate := w.closeEntered, w.closeGate
+	w.closeEntered, w.closeGate = nil, nil
+	w.mu.Unlock()
+	if gate != nil {
+		close(entered)
+		<-gate
+	}
 	w.mu.Lock()
 	defer w.mu.Unlock()
 	w.closes++
